@@ -40,4 +40,19 @@ cef896e C17
 e551e73 C17
 67cf103 C17
 bbda586 C17
+954495f C06
+96075f2 C05
+67bdc16 C08
+3033459 C11
+4f9f7e8 C04
+c156be2 C16
+571ecc8,a009b18 C04
+fffe4f6 C04
+486fe1b C14 C01
+0699e7c C02 C01
+15167b8,7b756ce C01
+d4b85b4 C08
+09f03f7 C16
+f8434c2 C13
+460c1b6 C19
 LIST
